@@ -9,7 +9,7 @@ Open Scope N_scope.
 Example ex_doc_lex_safe : lex_safe_doc ex_doc = true.
 Proof. vm_compute. reflexivity. Qed.
 
-(* depth 4, every scalar kind, negative / decimal numbers, a string with every escaped character, an always-quote key
+(* depth 4, every scalar kind, negative / decimal / exponent numbers, a string with every escaped character, an always-quote key
    whose value would otherwise be emitted bare, keys that start like the sentinel / a version / a keyword *)
 Definition ex_doc2 : doc :=
   mkDoc (lit "ENDING_1") (Some (lit "6.0.0.1")) None false []
@@ -24,7 +24,10 @@ Definition ex_doc2 : doc :=
                   NAssign (lit "F") (VBool false) [] None;
                   NAssign (lit "N") VNull [] None ] [] ] [];
           NAssign (lit "vsx") (VStr (lit "true")) [] None ] [];
-      NAssign (lit "Z9") (VNum false (lit "007")) [] None ]
+      NAssign (lit "Z9") (VNum false (lit "007")) [] None;
+      NAssign (lit "E1") (VNum true (lit "1e+16")) [] None;
+      NAssign (lit "E2") (VNum true (lit "-1.5E-07")) [] None;
+      NAssign (lit "e3") (VNum true (lit "2e5")) [] None ]
     [].
 
 Example ex_doc2_core : core_doc ex_doc2 = true.
